@@ -198,6 +198,10 @@ func c18CheckProof(c *Ctx, kind string, in sx.V, tag string, src *c18Src, pruned
 			if !ok {
 				return
 			}
+			if q.CellType() != boc.PrunedBranchCell && nodeType(n) != 1 {
+				fail("not-pruned", "the position "+pos+" that this operation pruned is not replaced by a pruned branch: the subtree is disclosed")
+				return
+			}
 			if q.CellType() != boc.PrunedBranchCell || q.RefsSize() != 0 || boc.VerifMask(q) != 1 {
 				fail("pruned-shape", "the cell pruned at "+pos+" is not a pruned-branch cell of mask 1 without references")
 				return
